@@ -111,4 +111,4 @@ def run(run, P):
                 return [e]
             return None
         solve(f, Env(), on_event, None, keys, R, key_fn=lambda e: (tuple(k for k, v in e.ts.get('o', ())), tuple(e.nullf(v) for v in sorted(own))), max_envs=256)
-    run.require(n >= (10 if run.cfg == 'base' else 4) or run.fixture_mode, 'R-OWN-RAW: fewer than 10 scratch buffers (raw allocation freed by the allocating function) found')
+    run.require_count(n >= (10 if run.cfg == 'base' else 4) or run.fixture_mode, 'R-OWN-RAW: fewer than 10 scratch buffers (raw allocation freed by the allocating function) found')
